@@ -1,6 +1,8 @@
 (* driver.ml — runs the extracted Gallina models (float instance) on cases read from stdin.
    usage: model <command>; one case per line in, one result per line out; doubles as C99 hex floats *)
 open Model
+type coqstring = Model.string
+type string = Stdlib.String.t
 
 let f_of_s (s : string) : Float64.t =
   Float64.of_float (match s with
@@ -316,7 +318,68 @@ let cmd_vtk line =
      List.iter (fun x -> Buffer.add_string b (Printf.sprintf " %d" (n_to_int x))) tys);
   print_endline (Buffer.contents b)
 
-let commands : (string * (string -> unit)) list ref = ref [ ("vtk", cmd_vtk); ("population", cmd_population); ("replay", cmd_replay); ("forces", cmd_forces); ("geometry", cmd_geometry); ("valid", cmd_valid); ("cellcycle", cmd_cellcycle); ("kernel", cmd_kernel); ("grid", cmd_grid); ("integrate", cmd_integrate) ]
+(* ---------------------------------------------------------------- C18 parameter reader over the regenerated tables *)
+type ptext = { raw : string; p_stod : float option; p_stoi : int option; p_isinf : bool; low : int }
+let coq_string_of (s : string) : coqstring =
+  let n = String.length s in
+  let rec go i = if i >= n then EmptyString else
+    let c = Char.code s.[i] in
+    let b k = (c lsr k) land 1 = 1 in
+    String (Ascii (b 0, b 1, b 2, b 3, b 4, b 5, b 6, b 7), go (i + 1)) in
+  go 0
+let ocaml_string_of (s : coqstring) : string =
+  let b = Buffer.create 16 in
+  let rec go = function
+    | EmptyString -> ()
+    | String (Ascii (b0, b1, b2, b3, b4, b5, b6, b7), r) ->
+      let v x k = if x then 1 lsl k else 0 in
+      Buffer.add_char b (Char.chr (v b0 0 + v b1 1 + v b2 2 + v b3 3 + v b4 4 + v b5 5 + v b6 6 + v b7 7)); go r in
+  go s; Buffer.contents b
+
+let cmd_params line =
+  let t = Array.of_list (toks line) in
+  let pos = ref 0 in
+  let next () = let s = t.(!pos) in incr pos; s in
+  let ni () = int_of_string (next ()) in
+  let nt = ni () in
+  let texts = Array.init nt (fun _ ->
+    let raw = next () in
+    let sd = next () in let si = next () in let inf = ni () in let low = ni () in
+    { raw; p_stod = (if sd = "N" then None else Some (Float64.to_float (f_of_s sd))); p_stoi = (if si = "N" then None else Some (int_of_string si)); p_isinf = (inf = 1); low }) in
+  let rec elem () =
+    ignore (next ());
+    let tag = next () in
+    let tx = next () in
+    let nchild = ni () in
+    let ch = List.init nchild (fun _ -> elem ()) in
+    Elem (coq_string_of tag, (if tx = "-" then None else Some (int_of_string tx)), ch) in
+  let ndoc = ni () in
+  let doc = List.init ndoc (fun _ -> elem ()) in
+  let stod i = texts.(i).p_stod and stoi i = (match texts.(i).p_stoi with None -> None | Some z -> Some (int_to_z z))
+  and is_inf i = texts.(i).p_isinf and lower i = texts.(i).low in
+  let empty = ni () in
+  let pv = function
+    | VS i -> "s:" ^ texts.(i).raw | VD v -> "d:" ^ (s_of_f (Float64.of_float v)) | VI z -> Printf.sprintf "i:%d" (z_to_int z) | VB b -> if b then "b:1" else "b:0" in
+  let prec r = String.concat " " (List.rev_map (fun (f, v) -> ocaml_string_of f ^ "=" ^ pv v) r) in
+  let perr = function
+    | EMissing tg -> "missing " ^ ocaml_string_of tg | EConv tg -> "conv " ^ ocaml_string_of tg | ERule tg -> "rule " ^ ocaml_string_of tg
+    | EUnset tg -> "unset " ^ ocaml_string_of tg | ENoSection s -> "nosection " ^ ocaml_string_of s | ENoCellType -> "nocelltype"
+    | ENoFaceTypes -> "nofacetypes" | ENoFaceType -> "nofacetype" in
+  let ltb0 v = v < 0.0 and leb0 v = v <= 0.0 and ltb a b = a < b in
+  let b = Buffer.create 1024 in
+  (match par_numerical stod stoi is_inf lower Float.infinity empty ltb0 leb0 ltb doc with
+   | POk r -> Buffer.add_string b ("NUM OK " ^ prec r)
+   | PErr e -> Buffer.add_string b ("NUM ERR " ^ perr e));
+  Buffer.add_string b " || ";
+  (match par_cell_types stod stoi is_inf lower Float.infinity empty ltb0 leb0 ltb doc with
+   | POk l -> Buffer.add_string b (Printf.sprintf "BIO OK %d" (List.length l));
+     List.iter (fun (r, frs) -> Buffer.add_string b (" CT " ^ prec r ^ Printf.sprintf " NFT %d" (List.length frs));
+       List.iter (fun fr -> Buffer.add_string b (" FT " ^ prec fr)) frs) l
+   | PErr e -> Buffer.add_string b ("BIO ERR " ^ perr e));
+  Buffer.add_string b (if par_translation_ok then "" else " || TRANSLATION-FAILED");
+  print_endline (Buffer.contents b)
+
+let commands : (string * (string -> unit)) list ref = ref [ ("params", cmd_params); ("vtk", cmd_vtk); ("population", cmd_population); ("replay", cmd_replay); ("forces", cmd_forces); ("geometry", cmd_geometry); ("valid", cmd_valid); ("cellcycle", cmd_cellcycle); ("kernel", cmd_kernel); ("grid", cmd_grid); ("integrate", cmd_integrate) ]
 
 let () =
   let cmd = Sys.argv.(1) in
